@@ -69,23 +69,26 @@ def request_for(rid, c, rng):
         headers.append([hn("Impersonate-Extra-") + esc_key(k), v])
     for o in c["impOther"]:
         headers.append([hn(o), "1234"])
-    tok = tok_of(c["id"]["user"])
+    tok = tok_of(c["id"])
     if c["authn"] == "bad":
         tok = "no-such-token"
     return {"k": "req", "id": rid, "host": host, "method": rng.choice(["GET", "POST", "DELETE"]) if res == "pods" else "GET", "path": "/api/v1/namespaces/d/" + res,
             "headers": headers, "token": tok, "resp": {"status": 200, "bodySize": 5}}
 
 
-def tok_of(user):
+def tok_of(idn):
+    """one token per IDENTITY (several identities may share a user name)"""
     import hashlib
-    return "tok-" + {"alice": "alice", "system:serviceaccount:ns1:sa1": "sa"}.get(user, "u" + hashlib.sha1(user.encode()).hexdigest()[:8])
+    if idn["user"] == "alice" and idn["groups"] == ["g1", "system:authenticated"] and not idn["extras"]:
+        return "tok-alice"
+    return "tok-u" + hashlib.sha1(json.dumps(idn, sort_keys=True).encode()).hexdigest()[:10]
 
 
 def tokens(cases):
     t = {}
     for x in cases:
         idn = x["c"]["id"]
-        name = tok_of(idn["user"])
+        name = tok_of(idn)
         extra = {}
         for k, v in idn["extras"]:
             extra.setdefault(k, []).append(v)
@@ -143,12 +146,16 @@ def project(events):
 PATHS = ["/api/v1/namespaces/d/pods", "/api/v1/namespaces/d/pods/a%2Fb", "/api/v1/namespaces/d/pods/x%20y", "/api/v1/namespaces/d/pods/%E2%82%AC", "/api/v1/namespaces/d/pods/", "/version"]
 QUERIES = ["", "x=1", "x=1&b=2&x=%20z", "watch", "q=a+b%20c", "labelSelector=a%3Db%2Cc%21%3Dd", "k=" + "v" * 3000]
 REQ_HEADERS = [[], [["X-Custom", "v1"], ["X-Custom", "v2"]], [["Accept", "application/json"], ["Content-Type", "application/json"]], [["X-Forwarded-For", "10.1.1.1"]],
-               [["Connection", "X-Drop-Me"], ["X-Drop-Me", "1"], ["X-Keep", "2"]], [["Keep-Alive", "timeout=5"], ["Te", "trailers"], ["X-Keep", "3"]], [["If-None-Match", "\"abc\""], ["User-Agent", "kubectl/v1.18"]]]
+               [["Connection", "X-Drop-Me"], ["X-Drop-Me", "1"], ["X-Keep", "2"]], [["Keep-Alive", "timeout=5"], ["Te", "trailers"], ["X-Keep", "3"]], [["If-None-Match", "\"abc\""], ["User-Agent", "kubectl/v1.18"]],
+               [["X-Same", "1"], ["X-Same", "1"], ["X-Same", "1"]], [["Accept", "application/json"], ["Accept", "application/json"], ["X-Empty", ""]]]      # the SAME value several times
 BODIES = [(0, False), (10, False), (40000, False), (3000, True)]
 RESPS = [{"status": 200, "bodySize": 100, "headers": [["X-Up", "u1"], ["X-Up", "u2"]]}, {"status": 201, "bodySize": 10, "headers": [["Location", "/api/v1/x"]]}, {"status": 204, "bodySize": 0, "headers": []},
          {"status": 301, "bodySize": 0, "headers": [["Location", "https://elsewhere/"]]}, {"status": 404, "bodySize": 60, "headers": [["Content-Type", "application/json"]]},
          {"status": 409, "bodySize": 10, "headers": []}, {"status": 500, "bodySize": 20, "headers": [["Retry-After", "7"]]}, {"status": 503, "bodySize": 1048576, "headers": [["Warning", "299 - x"]]},
-         {"status": 200, "bodySize": 300000, "headers": [["Set-Cookie", "a=b"], ["Set-Cookie", "c=d"], ["Etag", "\"x\""]]}]
+         {"status": 200, "bodySize": 300000, "headers": [["Set-Cookie", "a=b"], ["Set-Cookie", "c=d"], ["Etag", "\"x\""]]},
+         # one header name carrying the SAME value several times, an empty value
+         {"status": 200, "bodySize": 10, "headers": [["Warning", "299 - x"], ["Warning", "299 - x"], ["X-Count", "1"], ["X-Count", "1"], ["X-Count", "1"]]},
+         {"status": 200, "bodySize": 10, "headers": [["Set-Cookie", "probe=1"], ["Set-Cookie", "probe=1"], ["X-Empty", ""]]}]
 METHODS = ["GET", "POST", "PUT", "PATCH", "DELETE", "HEAD", "OPTIONS"]
 
 
@@ -253,20 +260,43 @@ def run(prop, tier, replay):
         outc = [c for c in cases if c not in ident] if prop == "C04" else []
         use = ident if prop == "C02" else outc + ident[::9]
         rng.shuffle(use)
+        confc = [c for c in cases if c.get("conf")] if prop == "C02" else []
+        use = [c for c in use if not c.get("conf")]
         if tier == "quick":
             items = [c for c in use if c["c"]["imp"]["extras"] and len(c["c"]["imp"]["extras"]) >= 2 and c["c"]["authz"]["userextras"] == "allow" and c["c"]["impOther"] == []] if prop == "C02" else []
             # every authenticated identity forwarded as itself (no impersonation requested) is always part of the sample
             items += [c for c in use if c not in items and c["c"]["imp"]["kind"] == "none" and not c["c"]["imp"]["groups"] and not c["c"]["imp"]["extras"]] if prop == "C02" else []
             rest = [c for c in use if c not in items]
             use = items + rest[:(1500 if prop == "C02" else 900) - len(items)]
+        seq = None
         if replay:
-            use = [json.load(open(replay))["case"]]
+            rp = json.load(open(replay))
+            use = [rp["case"]]
+            if rp.get("sequence"):       # a case of the confusable part: the requests sent through the same gateway before it are replayed as well
+                seq, use = rp["sequence"] + [rp["case"]], []
         # group cases by the authorizer script (one scenario per distinct script), batches of <= 150 requests
         groups = {}
         for c in use:
             groups.setdefault(vlib.canon([c["c"]["authz"], c["c"].get("denyItem")]), []).append(c)
         scs = []
         case_of = {}
+        if (confc and not replay) or seq:
+            # confusable identities: ONE gateway, every case sent several times in changing orders
+            order = []
+            for rep in range(3):
+                o = list(confc)
+                random.Random(seed * 31 + rep).shuffle(o)
+                order += o + o[::-1]
+            if seq:
+                order = confc = seq
+            for b in range(0, len(order), 150):
+                sid = 5000 + len(scs)
+                steps = prelude()
+                for k, c in enumerate(order[b:b + 150]):
+                    rid = "q%d" % k
+                    steps.append(request_for(rid, c["c"], rng))
+                    case_of[(str(sid), rid)] = c
+                scs.append({"id": sid, "stubs": 3, "tokens": tokens(confc), "authz": authz_rules(confc[0]["c"]), "authzDefault": "deny", "steps": steps})
         for key, cs in groups.items():
             for b in range(0, len(cs), 150):
                 sid = len(scs) + 1
@@ -321,6 +351,7 @@ def run(prop, tier, replay):
                 sid, rid = parts[1].split("/")
                 nrej += 1
                 v.violation("req-%s-%s" % (sid, rid), {"case": case_of[(sid, rid)], "observed": r["obs"], "clause": parts[2],
+                                                        "sequence": [case_of[(sid, "q%d" % k)] for k in range(int(rid[1:]))] if int(sid) >= 5000 else None,
                                                         "what": "upstream identity / credential differs from the expected acting identity" if parts[2] == "identity"
                                                                 else "terminal differs (status / Retry-After / forwarded although answered / not forwarded)"})
         rc = v.finish()
